@@ -1,0 +1,39 @@
+//go:build verif
+// +build verif
+
+package core
+
+import (
+	"strconv"
+
+	"com.tuntun.rangers/node/src/common"
+	"com.tuntun.rangers/node/src/middleware/log"
+	"com.tuntun.rangers/node/src/middleware/types"
+	"com.tuntun.rangers/node/src/storage/account"
+)
+
+// Verification hooks (build tag verif only): expose the per-block transaction loop and the
+// failed-contract gas charge so that a harness can run them on an in-memory AccountDB.
+
+// VerifC06ExecuteBlock runs the real VMExecutor loop (BeforeExecute / snapshot / Execute /
+// revert / gas charge / nonce, then after() unless situation is "testing", then
+// IntermediateRoot) on the given state.
+func VerifC06ExecuteBlock(accountdb *account.AccountDB, block *types.Block, situation string) (common.Hash, []common.Hash, []*types.Transaction, []*types.Receipt) {
+	return newVMExecutor(accountdb, block, situation).Execute()
+}
+
+// VerifC06DeductGasFee is deductGasFee.
+func VerifC06DeductGasFee(gasUsed uint64, source string, accountdb *account.AccountDB, hash common.Hash) {
+	deductGasFee(gasUsed, source, accountdb, hash)
+}
+
+// VerifC06InitLoggers sets the package loggers that InitCore would set (InitCore itself opens the
+// block chain, the group chain and the network layer, which a harness does not want).
+func VerifC06InitLoggers() {
+	if logger == nil {
+		logger = log.GetLoggerByIndex(log.CoreLogConfig, strconv.Itoa(common.InstanceIndex))
+	}
+	if txLogger == nil {
+		txLogger = log.GetLoggerByIndex(log.TxLogConfig, strconv.Itoa(common.InstanceIndex))
+	}
+}
